@@ -440,15 +440,21 @@ def _mono_axioms(c, op):
         return
     f = _uf(op, 2)
     a, b, a2, b2 = z3.Reals("vcx_a vcx_b vcx_a2 vcx_b2")
-    fin4 = z3.And(*[z3.And(NINF < v, v < PINF) for v in (a, b, a2, b2)])
+    rng4 = z3.And(*[z3.And(NINF <= v, v <= PINF) for v in (a, b, a2, b2)])
+    inf_ = lambda v: z3.Or(v == PINF, v == NINF)
+    # monotonicity of correctly rounded arithmetic on the extended reals, wherever neither result is NaN
     if op == "add":
-        body = z3.Implies(z3.And(fin4, a <= a2, b <= b2), f(a, b) <= f(a2, b2))
+        nonan = z3.And(*[z3.Not(z3.Or(z3.And(x == PINF, y == NINF), z3.And(x == NINF, y == PINF))) for x, y in ((a, b), (a2, b2))])
+        body = z3.Implies(z3.And(rng4, nonan, a <= a2, b <= b2), f(a, b) <= f(a2, b2))
     elif op == "sub":
-        body = z3.Implies(z3.And(fin4, a <= a2, b >= b2), f(a, b) <= f(a2, b2))
+        nonan = z3.And(*[z3.Not(z3.Or(z3.And(x == PINF, y == PINF), z3.And(x == NINF, y == NINF))) for x, y in ((a, b), (a2, b2))])
+        body = z3.Implies(z3.And(rng4, nonan, a <= a2, b >= b2), f(a, b) <= f(a2, b2))
     elif op == "mul":
-        body = z3.Implies(z3.And(fin4, a >= 0, a == a2, b <= b2), f(a, b) <= f(a2, b2))
+        nonan = z3.And(*[z3.Not(z3.Or(z3.And(x == 0, inf_(y)), z3.And(inf_(x), y == 0))) for x, y in ((a, b), (a2, b2))])
+        body = z3.Implies(z3.And(rng4, nonan, a >= 0, a == a2, b <= b2), f(a, b) <= f(a2, b2))
     else:
-        body = z3.Implies(z3.And(fin4, b > 0, b == b2, a <= a2), f(a, b) <= f(a2, b2))
+        nonan = z3.And(*[z3.Not(z3.Or(z3.And(x == 0, y == 0), z3.And(inf_(x), inf_(y)))) for x, y in ((a, b), (a2, b2))])
+        body = z3.Implies(z3.And(rng4, nonan, b > 0, b == b2, a <= a2), f(a, b) <= f(a2, b2))
     c.axiom(("mono", op), z3.ForAll([a, b, a2, b2], body, patterns=[z3.MultiPattern(f(a, b), f(a2, b2))]))
     if op in ("add", "mul"):
         # IEEE addition and multiplication are commutative
